@@ -6,21 +6,28 @@ LEVEL = "model_checking"
 
 def run(ctx):
     if ctx.quick:
-        lens = {0, 1, 15, 16, 17, 20, 24, 31, 32, 33, 48, 63, 64}
-        edge = {1, 16, 32, 64}
+        lens = {0, 1, 16, 20, 24, 31, 32, 33, 64}
+        edge = {1, 32, 64}
     else:
         lens = set(range(0, 65))
         edge = {1, 16, 24, 32, 33, 64}
-    consts = {"Lens": lens, "EdgeLens": edge}
+    consts = {"Lens": lens, "EdgeLens": edge, "DevAppendLocalNonce": False}
+    # the history-independence clause is not vacuous: a channel end whose set_local_nonce appends violates it on a renewal
+    ctx.model_check("dev_append_local_nonce", "MCKeyDerivation", dict(consts, DevAppendLocalNonce=True), ["DesignOK"],
+                    spec="SpecSeq", expect_violation="DesignOK", workers=2)
     fn_pipeline(ctx, "C13", "keyderiv", "GenKeyDerivation", "TraceKeyDerivation", consts=consts, trace_consts=consts,
                 crate="h_crypto", key=lambda c: c.get("c"), expected=lambda c: None,
-                nontrivial=lambda c: c["c"]["cn"] != c["c"]["sn"],
+                nontrivial=lambda c: c["c"]["kind"] == "seq" or c["c"]["cn"] != c["c"]["sn"],
                 rule="TLC enumerates every (security policy, client nonce, server nonce) over the abstract nonce set "
                      "(pseudo-random streams of the listed lengths 0..64, repeated bytes 00/ff/a5, counting bytes, a second "
                      "stream), checks the specified derivation against Table 33 as symbolic P_SHA terms and prints the terms; "
                      "the harness evaluates the terms with an independent RFC 5246 P_hash and maps the keys derived by "
                      "SecurityPolicy::make_secure_channel_keys and by client-role and server-role SecureChannel::derive_keys back "
-                     "to terms; distinct by (policy, nonce pair); non-trivial = the two nonces differ")
+                     "to terms; in addition sequences of 2 and 3 exchanges (issue, renewals; fresh nonce pairs of the policy's nonce "
+                     "length, also server-generated nonces) run on ONE client-role and ONE server-role channel object, driven "
+                     "with set_local_nonce / set_remote_nonce_from_byte_string / create_random_nonce / derive_keys, and judged "
+                     "after every exchange (history independence); distinct by case; non-trivial = the two nonces differ or a "
+                     "sequence")
     ctx.assumptions += ["HMAC per RFC 2104 over openssl SHA-1/SHA-256 is the trusted primitive of the independent P_hash "
                         "(self-tested against openssl's HMAC)",
                         "distinct P_SHA terms (modulo HMAC key zero padding) denote distinct byte strings",
